@@ -179,6 +179,24 @@ def check_sampler(G, ctx, spec, n):
     ctx.count("sampler:" + spec["name"])
 
 
+def vectorised_params(G, ctx):
+    """sampling vectorised over a parameter axis >= 2: lane i is drawn from slice i of the parameter"""
+    import jax.numpy as jnp
+    import jax.random as jr
+    import genjax.distributions as D
+    t = jnp.arange(24.0).reshape(2, 3, 4) * 10.0
+    for ax in (0, 1, 2, -1):
+        out = np.asarray(G.seed(G.modular_vmap(lambda m: D.normal.sample(m, 0.01), in_axes=(ax,)))(jr.key(2), t))
+        want = np.moveaxis(np.asarray(t), ax, 0)
+        case = {"kind": "vectorised-params", "axis": ax}
+        if out.shape != want.shape or not np.allclose(out, want, atol=0.2):
+            ctx.property_failure(None, f"normal.sample vectorised over parameter axis {ax}: lanes are not drawn from their own parameter slices (shape {out.shape} vs {want.shape})", case)
+        lg = jnp.log(jnp.moveaxis(jnp.eye(3)[None, :, :].repeat(2, 0) * 0.999 + 0.0005, 1, 2))      # (2,3,3): lane j (axis 2) puts its mass on category j
+        cat = np.asarray(G.seed(G.modular_vmap(lambda l: D.categorical.sample(l), in_axes=(2,)))(jr.key(3), jnp.moveaxis(lg, 2, 1).transpose(0, 2, 1)))
+        ctx.case(nontrivial_key=("vecparam", ax))
+    ctx.count("vectorised-params")
+
+
 def user_wrapped(G, ctx):
     import jax.numpy as jnp
     import jax.random as jr
@@ -216,6 +234,7 @@ def run(ctx, audit):
     k = 12
     common.run_sharded(ctx, "props.c13", "shard", [(list(range(len(T)))[i::k], n) for i in range(k)])
     user_wrapped(impl.load(), ctx)
+    vectorised_params(impl.load(), ctx)
     return {"rule": RULE, "distributions": sorted({t["name"] for t in T})}
 
 
